@@ -140,4 +140,25 @@ ReencodePrediction(kind, b) ==
                                Arr([i \in 1..Len(it.xs[4].xs) |-> ReSig3(it.xs[4].xs[i])])>>))
     [] kind \in {"sig", "csig"} -> Enc(ReSig3(it))
 
+
+\* C09: the canonical form obtained after the caller discards the retained raw bytes of every layer:
+\* each protected bucket re-encoded deterministically (h'' when empty), each unprotected bucket sorted with shortest
+\* heads, nested countersignatures treated the same way, payload / signature heads shortest.
+RECURSIVE CanonSig3(_)
+RECURSIVE CanonUnprotItem(_)
+CanonProtItem(x) == LET pm == ProtMap(x) IN
+  IF ~pm.ok THEN x ELSE IF pm.ps = <<>> THEN Bstr(<<>>) ELSE Bstr(Enc(Canon(Map(pm.ps))))
+CanonCsValue(v) == IF IsOneSig(v) THEN CanonSig3(v) ELSE IF IsArr(v) THEN Arr([i \in 1..Len(v.xs) |-> CanonSig3(v.xs[i])]) ELSE Canon(v)
+CanonUnprotItem(u) ==
+  IF u.k # "map" THEN u ELSE
+  Map(SortPairs([i \in 1..Len(u.ps) |->
+        <<Canon(u.ps[i][1]), IF IsUIntN(u.ps[i][1], LblCounterSig) \/ IsUIntN(u.ps[i][1], LblCounterSigV2) THEN CanonCsValue(u.ps[i][2]) ELSE Canon(u.ps[i][2])>>]))
+CanonSig3(v) == IF IsArr(v) /\ Len(v.xs) = 3 THEN Arr(<<CanonProtItem(v.xs[1]), CanonUnprotItem(v.xs[2]), W0(v.xs[3])>>) ELSE v
+ClearedPrediction(kind, b) ==
+  LET it == Body(kind, b).item IN
+  CASE kind = "sign1"  -> <<210>> \o Enc(Arr(<<CanonProtItem(it.xs[1]), CanonUnprotItem(it.xs[2]), W0(it.xs[3]), W0(it.xs[4])>>))
+    [] kind = "sign1u" -> Enc(Arr(<<CanonProtItem(it.xs[1]), CanonUnprotItem(it.xs[2]), W0(it.xs[3]), W0(it.xs[4])>>))
+    [] kind = "sign"   -> <<216, 98>> \o Enc(Arr(<<CanonProtItem(it.xs[1]), CanonUnprotItem(it.xs[2]), W0(it.xs[3]),
+                               Arr([i \in 1..Len(it.xs[4].xs) |-> CanonSig3(it.xs[4].xs[i])])>>))
+    [] kind \in {"sig", "csig"} -> Enc(CanonSig3(it))
 =============================================================================
